@@ -192,3 +192,25 @@ fn d4_merge_unbounded_cross_group_starvation() {
     }
     assert!(polls.get() > base, "woken victim in group 0 polled {} times in 10000 polls", polls.get() - base);
 }
+
+
+#[test]
+fn d8_merge_unbounded_ends_when_two_groups_end_in_one_pass() {
+    // 33 sources = two groups (32 + 1).  An item from the last group leaves the cursor there (before the D4 repair) /
+    // one past it (after); then every source ends.  Before the repair (586a86a) the next poll answered Pending with
+    // nothing registered although no source was left.
+    use futures::channel::mpsc;
+    let mut cx = Context::from_waker(noop_waker_ref());
+    let mut txs = Vec::new();
+    let mut m = MergeUnbounded::new();
+    for _ in 0..33 {
+        let (tx, rx) = mpsc::unbounded::<u32>();
+        txs.push(tx);
+        m.push(rx);
+    }
+    assert!(m.poll_next_unpin(&mut cx).is_pending());
+    txs[32].unbounded_send(7).unwrap();
+    assert_eq!(m.poll_next_unpin(&mut cx), Poll::Ready(Some(7)));
+    drop(txs);
+    assert_eq!(m.poll_next_unpin(&mut cx), Poll::Ready(None), "every source has ended");
+}
